@@ -187,6 +187,44 @@ func (e *E3) scaledOb(b *ssa.BasicBlock, idx, lt termT, c int64) (bool, string) 
 	return false, ""
 }
 
+// lowerReq: tries to establish a − bt ≤ c by requiring a minimum length of a slice/string parameter p, when
+// bt is bounded below by LEN(p) − d (e.g. bt = len(p) − 1) and a is bounded above by a constant.
+func (e *E3) lowerReq(f *ssa.Function, fb *fnBnd, b *ssa.BasicBlock, a, bt termT, c int64) (bool, string) {
+	g := e.newGraph(b)
+	g.nodes[zeroT] = true
+	g.touch(a, 0)
+	g.touch(bt, 0)
+	g.condFacts()
+	ua := int64(0)
+	if a != zeroT {
+		ua = g.shortest(zeroT, a) // a ≤ ua
+		if ua >= inf {
+			return false, ""
+		}
+	}
+	for pi, prm := range f.Params {
+		if !sliceLike(prm.Type()) {
+			continue
+		}
+		pt := termT{v: prm, len: true}
+		g.touch(pt, 0)
+		d := g.shortest(bt, pt) // LEN(p) − bt ≤ d
+		if d >= inf {
+			continue
+		}
+		// need a − bt ≤ c ⇐ ua − (LEN(p) − d) ≤ c ⇐ LEN(p) ≥ ua + d − c
+		R := ua + d - c
+		if R <= 0 {
+			return true, "trivial"
+		}
+		if R > fb.req[pi] {
+			fb.req[pi] = R
+		}
+		return true, fmt.Sprintf("caller-side requirement len(%s) ≥ %d", prm.Name(), R)
+	}
+	return false, ""
+}
+
 func (e *E3) analyseBnd(f *ssa.Function, fb *fnBnd) {
 	add := func(in ssa.Instruction, kind, key string, ok bool, by, detail string) {
 		fb.obs = append(fb.obs, bndOb{F: f, In: in, Kind: kind, Key: key, OK: ok, By: by, Detail: detail})
@@ -235,8 +273,10 @@ func (e *E3) indexOb(f *ssa.Function, fb *fnBnd, b *ssa.BasicBlock, in ssa.Instr
 	it := e.termOf(index)
 	// lower bound
 	if !e.ProveLE(b, zeroT, it, 0) {
-		add(in, "index", key, false, "", fmt.Sprintf("index %s may be negative (range %s)", shortVal(index), e.rng(index)))
-		return
+		if ok, _ := e.lowerReq(f, fb, b, zeroT, it, 0); !ok {
+			add(in, "index", key, false, "", fmt.Sprintf("index %s may be negative (range %s)", shortVal(index), e.rng(index)))
+			return
+		}
 	}
 	ok, by := e.lenObligation(f, fb, b, it, base, -1)
 	if ok {
@@ -288,8 +328,10 @@ func (e *E3) sliceOb(f *ssa.Function, fb *fnBnd, b *ssa.BasicBlock, x *ssa.Slice
 		bys = append(bys, by)
 		if x.Low != nil {
 			if !e.ProveLE(b, e.termOf(x.Low), ht, 0) {
-				fail(fmt.Sprintf("cannot show low ≤ high (%s ≤ %s)", shortVal(x.Low), shortVal(x.High)))
-				return
+				if ok, _ := e.lowerReq(f, fb, b, e.termOf(x.Low), ht, 0); !ok {
+					fail(fmt.Sprintf("cannot show low ≤ high (%s ≤ %s)", shortVal(x.Low), shortVal(x.High)))
+					return
+				}
 			}
 		} else if !e.ProveLE(b, zeroT, ht, 0) {
 			fail(fmt.Sprintf("slice high bound %s may be negative (range %s)", shortVal(x.High), e.rng(x.High)))
